@@ -260,6 +260,18 @@ class Result(dict):
     pass
 
 
+def _tiny_constant(d0):
+    """residual without variables (rational constants, log/e/root constants only) below 1e-12"""
+    if d0.is_const():
+        return abs(d0.const_value()) <= Q(1, 10 ** 12)
+    if all(nf.ATOMS.atoms[i][0] in ("logc", "e", "cpow") for i in nf.all_atoms(d0)):
+        try:
+            return abs(float(nf.evaluate(d0, {}))) <= 1e-12
+        except Exception:
+            return False
+    return False
+
+
 def prove_scenario(scn, *, seed=0, crosscheck=2, max_paths=4000, timeout_ms=10000, fns=None,
                    replay=None, rtol=1e-9, expect_paths_min=1, smt_for_ineq=True):
     """Run scn symbolically over all paths, prove every claim, cross-check the shim
@@ -342,7 +354,7 @@ def prove_scenario(scn, *, seed=0, crosscheck=2, max_paths=4000, timeout_ms=1000
                     if nf.equal(a, b):
                         continue
                     d0 = nf.simplify(a - b)
-                    if d0.is_const() and abs(d0.const_value()) <= Q(1, 10 ** 12) * max(1, abs(a.const_value()) if a.is_const() else 1):
+                    if _tiny_constant(d0):
                         # residual is a pure constant at rounding level: float constant folding inside the code
                         # (e.g. math.lgamma / math.log evaluated in a different order) - accepted, counted
                         const_slack[0] += 1
